@@ -26,6 +26,11 @@ def lookup(txt):
 '''
 
 
+# clauses that report a construct they found (a write, a computed value), not a pattern they
+# failed to find: the idiom guard of sa/idioms.py does not apply to them
+IDIOM_GUARD_EXEMPT = {"*"}
+
+
 def check(ctx, rep, tier):
     rep.describe("no-module-write", "no function reachable at call time (from the two entry "
                  "points, through every production and both scorers) rebinds a module global, "
@@ -67,10 +72,54 @@ def _per_call_class(ctx, fi):
         for b in c.bases:
             if norm(b) in PER_CALL_CLASSES:
                 return True
-    return False
+    return _allocated_per_call(ctx, cls)
+
+
+_ALLOC_CACHE = {}
+
+
+def _allocated_per_call(ctx, cls):
+    """Every place that creates an instance of *cls* is inside a function that runs at call time
+    (reachable from the parsing entry points), never at module level or in import-time code: the
+    instance then lives no longer than the call that made it (unless it is stored in module state,
+    which the module-write rule reports on its own)."""
+    key = (id(ctx), cls)
+    if key in _ALLOC_CACHE:
+        return _ALLOC_CACHE[key]
+    cg = e5.get_callgraph(ctx) if hasattr(e5, "get_callgraph") else None
+    sites = 0
+    ok = True
+    for mn, m in ctx.model.mods.items():
+        if not mn.startswith("ctparse"):
+            continue
+        for n in ast.walk(m.tree):
+            if isinstance(n, ast.Call) and isinstance(n.func, ast.Name) and n.func.id == cls:
+                sites += 1
+                cur = getattr(n, "_parent", None)
+                fn = None
+                while cur is not None:
+                    if isinstance(cur, (ast.FunctionDef, ast.AsyncFunctionDef)):
+                        fn = cur
+                        break
+                    cur = getattr(cur, "_parent", None)
+                if fn is None:
+                    ok = False        # module level: lives as long as the process
+                else:
+                    q = getattr(fn, "_qual", fn.name)
+                    if _REACH is not None and (mn, q) not in _REACH:
+                        ok = False    # created by code that does not run per parse (import time)
+    res = ok and sites > 0
+    _ALLOC_CACHE[key] = res
+    return res
+
+
+_REACH = None
 
 
 def _writes(ctx, rep, cg, reach, mstate):
+    global _REACH
+    _REACH = set(reach)
+    _ALLOC_CACHE.clear()
     n_fun = 0
     for key in sorted(reach):
         fi = cg.funcs[key]
@@ -180,11 +229,17 @@ def _only_fresh_arguments(cg, fi, pname):
                 continue
             fn = c.func
             nm = fn.id if isinstance(fn, ast.Name) else (fn.attr if isinstance(fn, ast.Attribute) else None)
-            if nm != f.name:
+            cargs = c.args
+            if nm == "partial" and c.args and isinstance(c.args[0], ast.Name) and c.args[0].id == f.name:
+                # functools.partial(f, a, b): a call of f whose first arguments are bound here
+                cargs = c.args[1:]
+                if not (0 <= idx < len(cargs)) and not any(k.arg == pname for k in c.keywords):
+                    return False      # the parameter is supplied later, by a caller we do not see
+            elif nm != f.name:
                 continue
             arg = None
-            if 0 <= idx < len(c.args):
-                arg = c.args[idx]
+            if 0 <= idx < len(cargs):
+                arg = cargs[idx]
             for k in c.keywords:
                 if k.arg == pname:
                     arg = k.value
@@ -264,7 +319,32 @@ def _order(ctx, rep):
                 elem_cls = None
                 if isinstance(v, ast.SetComp) and isinstance(v.elt, ast.Call) and isinstance(v.elt.func, ast.Name):
                     elem_cls = v.elt.func.id
+                else:
+                    # set(<generators ...>): the elements are what the innermost generators yield
+                    leaves = []
+                    for g in ast.walk(v):
+                        if isinstance(g, (ast.GeneratorExp, ast.ListComp, ast.SetComp)) and \
+                                not isinstance(g.elt, (ast.GeneratorExp, ast.ListComp, ast.SetComp)):
+                            leaves.append(g.elt)
+                    ctor = {l.func.id for l in leaves if isinstance(l, ast.Call) and isinstance(l.func, ast.Name)
+                            and any(l.func.id in mm.classes for mm in ctx.model.mods.values())}
+                    if leaves and len(ctor) == 1 and all(isinstance(l, ast.Call) and isinstance(l.func, ast.Name)
+                                                         and l.func.id in ctor for l in leaves):
+                        elem_cls = ctor.pop()
                 int_hashed = elem_cls is not None and _int_hashed(ctx, elem_cls)
+                # what the elements are is not visible (built elsewhere): hash order cannot be judged
+                fills = [v]
+                for u_ in ast.walk(f):
+                    if isinstance(u_, ast.Call) and isinstance(u_.func, ast.Attribute) and u_.func.attr in ("add", "update") \
+                            and isinstance(u_.func.value, ast.Name) and u_.func.value.id == name:
+                        for a_ in u_.args:
+                            fills.append(a_)
+                            # a loop variable stands for the elements of what it iterates
+                            if isinstance(a_, ast.Name):
+                                for l_ in ast.walk(f):
+                                    if isinstance(l_, ast.For) and isinstance(l_.target, ast.Name) and l_.target.id == a_.id:
+                                        fills.append(l_.iter)
+                unknown_elems = elem_cls is None and not any(_str_elements(x) for x in fills)
                 bad = None
                 for u in ast.walk(f):
                     it = None
@@ -287,9 +367,27 @@ def _order(ctx, rep):
                     if isinstance(it, ast.Name) and it.id == name and not int_hashed:
                         par = getattr(u, "_parent", None)
                         bad = bad or "iterated in hash order: elements are not hashed over integers only"
-                rep.add("order-determinism", c, m.where(v), bad is None,
-                        bad or ("elements hashed over integers" if int_hashed else "only iterated under a total sort"))
+                if bad is not None and unknown_elems:
+                    rep.undecided("order-determinism", c, m.where(v),
+                                  "the set is iterated unsorted and the kind of its elements is not visible here "
+                                  "(integers and integer-hashed objects iterate the same way in every process)")
+                else:
+                    rep.add("order-determinism", c, m.where(v), bad is None,
+                            bad or ("elements hashed over integers" if int_hashed else "only iterated under a total sort"))
     rep.count("sets", n, 1)
+
+
+def _str_elements(v):
+    """the set expression visibly collects strings (split / findall results, string constants)"""
+    for n in ast.walk(v):
+        if isinstance(n, ast.Call) and isinstance(n.func, ast.Attribute) and n.func.attr in (
+                "split", "findall", "lower", "upper", "strip", "captures", "group", "groups", "keys"):
+            return True
+        if isinstance(n, ast.Constant) and isinstance(n.value, str):
+            return True
+        if isinstance(n, ast.Call) and isinstance(n.func, ast.Name) and n.func.id in ("str", "repr"):
+            return True
+    return False
 
 
 def _int_hashed(ctx, cls_name):
